@@ -9,5 +9,5 @@ rsync -a --exclude .git /repo/ "$D/"
 export GOFLAGS=-mod=mod GOPROXY=off GOSUMDB=off GOTOOLCHAIN=local GOWORK=off
 (cd "$D" && go build ./... ) || { echo "MUTANT DOES NOT BUILD"; exit 3; }
 for prop in "$@"; do
-  /verif/bin/stackcheck -verif /verif -repo "$D" -prop "$prop" -evidence "$D/ev.json" | grep -E "^(VIOLATION|property=)|violated|undecided" | sed "s#$D#SCRATCH#g" | cut -c1-600
+  ${STACKCHECK:-/verif/bin/stackcheck} -verif /verif -repo "$D" -prop "$prop" -evidence "$D/ev.json" | grep -E "^(VIOLATION|property=)|violated|undecided" | sed "s#$D#SCRATCH#g" | cut -c1-600
 done
